@@ -142,7 +142,15 @@ def payload(rng, n=None, thorough=False, maxlen=None):
 def noise(rng, maxlen=40):
     n = rng.randint(0, maxlen)
     style = rng.random()
-    if style < 0.4:
+    if style < 0.25:
+        # fragment soup: pieces of the start sequence in every combination (1b runs and 01 runs)
+        g = bytearray()
+        for _ in range(rng.randint(1, 5)):
+            g += bytes([0x1b] * rng.randint(1, 6)) + bytes([1] * rng.randint(0, 5))
+            if rng.random() < 0.2:
+                g.append(rng.choice([0x00, 0x55, 0x1a]))
+        return bytes(g)
+    if style < 0.55:
         g = bytearray(rng.getrandbits(8) for _ in range(n))
     else:
         g = bytearray(rng.choice(SMALL_ALPHA) for _ in range(n))
